@@ -12,13 +12,13 @@ from sx.shims import patched
 ID = "C41"
 MANIFEST = {
     "technique": "bounded model checking of thread schedules with solver-decided choice (SX engine): the threading and queue modules as seen by pkgcore.util.thread_pool are replaced by gated versions (Thread, Queue, Event) under a deterministic scheduler in which exactly one thread runs at a time and every queue operation, thread start, join and unit of worker progress is a scheduling point; which thread continues at each point is a sequence of solver-chosen integers (at most two pre-emptions per run, every forced switch free), so the schedule is a symbolic input; the engine forks over every feasible schedule for every item count, thread count and worker result kind, runs the real map_async under it and compares the multiset of processed items and the returned results with the specification; a state in which no thread can run is reported as a deadlock",
-    "level_text": "Bounded model checking, exhaustive within the bound (0-3 items x 1-3 requested threads x 3 worker result kinds x sized / unsized iterables x an item that is None or not x every schedule with at most two pre-emptions over the first 12 (quick) / 24 (thorough) scheduling points): the worker is called on each item exactly once across the pool, every non-empty result is returned exactly once (generator results flattened), no run deadlocks, and all threads have ended when map_async returns. Selector-only in the data; the schedule is the solver-chosen variable.",
+    "level_text": "Bounded model checking, exhaustive within the bound (0-3 items x 1-3 requested threads or none requested x 3 worker result kinds x sized / unsized iterables x an item that is None or not x every schedule with at most two pre-emptions over the first 12 (quick) / 24 (thorough) scheduling points): the worker is called on each item exactly once across the pool, every non-empty result is returned exactly once (generator results flattened), no run deadlocks, and all threads have ended when map_async returns. Selector-only in the data; the schedule is the solver-chosen variable.",
     "level_note": "The gated primitives replace the C-level ones: what is explored is the interleaving of the operations map_async and its workers perform, at the granularity of those operations (sequentially consistent, no pre-emption inside a single queue operation).",
 }
 META = {
     "modules": ["pkgcore.util.thread_pool"],
     "functions": ["thread_pool.map_async", "thread_pool.reclaim_threads"],
-    "stubs": ["threading.Thread / threading.Event / queue.Queue inside pkgcore.util.thread_pool (gated versions under a deterministic scheduler)"],
+    "stubs": ["threading.Thread / threading.Event / queue.Queue inside pkgcore.util.thread_pool (gated versions under a deterministic scheduler)", "cpu_count inside pkgcore.util.thread_pool (returns 2; used when no thread count is given)"],
     "bounds": {"quick": "items 0..3, threads 1..3, at most 2 pre-emptions within the first 12 scheduling points", "thorough": "first 24 scheduling points, 3 pre-emptions for 2 threads"},
     "outside": ["more than 3 threads / 3 items", "pre-emption inside a single queue or deque operation (the C-level primitives are atomic under the GIL)", "KeyboardInterrupt delivery", "threads=0 with a non-empty unsized iterable (nobody to do the work; map_async returns an empty result)"],
     "assumptions": ["queue.Queue, deque.append/extend and threading.Event are linearizable"],
@@ -245,8 +245,9 @@ class PoolHarness(Harness):
             items[min(1, n - 1)] = None  # an item that looks like "nothing"
         out = {"items": n, "none_item": bool(c.get("none_item")), "threads": t, "kind": kind, "sized": c["sized"], "problems": []}
         try:
-            with patched((thread_pool, "threading", threading_mod), (thread_pool, "queue", queue_mod)):
-                results = list(thread_pool.map_async(items if c["sized"] else Unsized(items), worker, threads=t))
+            with patched((thread_pool, "threading", threading_mod), (thread_pool, "queue", queue_mod), (thread_pool, "cpu_count", lambda: 2)):
+                kw = {} if t is None else {"threads": t}  # no thread count given: one thread per (stubbed: 2) CPU
+                results = list(thread_pool.map_async(items if c["sized"] else Unsized(items), worker, **kw))
         except Deadlock as e:
             out["problems"].append(f"deadlock: {e}")
             results = None
@@ -301,5 +302,7 @@ def obligations(tier, seed):
         for t in range(1, 4):
             pre = 3 if tier != "quick" and t == 2 else 2
             obs.append({"oid": f"{n} items|{t} threads|<={pre} pre-emptions", "items": n, "threads": t, "preempt": pre, "ndec": 12 if tier == "quick" else NDEC, "max_paths": 400000, "max_s": 2400})
+    for n in (0, 2, 3):
+        obs.append({"oid": f"{n} items|thread count not given (2 CPUs)|<=2 pre-emptions", "items": n, "threads": None, "preempt": 2, "ndec": 12 if tier == "quick" else NDEC, "max_paths": 400000, "max_s": 2400})
     UNIVERSE[tier] = {"obligations": len(obs)}
     return obs
